@@ -91,7 +91,7 @@ class Ctx:
         """a monitor failure on the implementation; `finding` = id of the known finding whose
         signature the module recognised, or None"""
         if finding is not None and not any(
-                k['id'] == finding and k['property'] == self.prop and k['status'] == 'finding'
+                k['id'] == finding and (k['property'] == self.prop or self.prop in k.get('also', [])) and k['status'] == 'finding'
                 for k in self.findings):
             finding = None   # only entries committed in known_findings.json suppress anything
         self.failures.append(Failure(case, explanation, finding, family))
